@@ -163,9 +163,9 @@ fn placed_case(ctx: &mut Ctx, place: &'static str, pos: &'static str, s: &str) {
 /// output for a benign sentinel string (so no per-position text is hard-coded in the model):
 /// `(tmpl name pre post s)` where printing the sentinel gave `pre ++ "\"QVSENTINEL\"" ++ post`.
 const SENTINEL: &str = "QVSENTINEL";
-const MORE_POSITIONS: [&str; 10] = [
+const MORE_POSITIONS: [&str; 11] = [
     "defframeName", "swapFirst", "swapSecond", "captureFrame", "rawCaptureFrame", "setFrequencyFrame",
-    "shiftPhaseFrame", "delaySecondOfTwo", "pragmaExternData", "nbPulseFrame",
+    "shiftPhaseFrame", "delaySecondOfTwo", "pragmaExternData", "nbPulseFrame", "pragmaExternBare",
 ];
 
 fn build_more(pos: &str, s: &str) -> Instruction {
@@ -191,6 +191,7 @@ fn build_more(pos: &str, s: &str) -> Instruction {
             vec![PragmaArgument::Identifier("foo".to_string())],
             Some(s.to_string()),
         )),
+        "pragmaExternBare" => Instruction::Pragma(Pragma::new("EXTERN".to_string(), vec![], Some(s.to_string()))),
         "nbPulseFrame" => Instruction::Pulse(Pulse { blocking: false, frame: frame(s, 0), waveform: wf() }),
         _ => unreachable!(),
     }
@@ -206,7 +207,7 @@ fn extract_more(pos: &str, i: &Instruction) -> Option<String> {
         ("setFrequencyFrame", Instruction::SetFrequency(x)) => Some(x.frame.name.clone()),
         ("shiftPhaseFrame", Instruction::ShiftPhase(x)) => Some(x.frame.name.clone()),
         ("delaySecondOfTwo", Instruction::Delay(x)) if x.frame_names.len() == 2 => Some(x.frame_names[1].clone()),
-        ("pragmaExternData", Instruction::Pragma(x)) => x.data.clone(),
+        ("pragmaExternData", Instruction::Pragma(x)) | ("pragmaExternBare", Instruction::Pragma(x)) => x.data.clone(),
         ("nbPulseFrame", Instruction::Pulse(x)) => Some(x.frame.name.clone()),
         _ => None,
     }
@@ -216,7 +217,7 @@ fn extract_more(pos: &str, i: &Instruction) -> Option<String> {
 fn tmpl_case(ctx: &mut Ctx, place: &'static str, pos: &'static str, s: &str) {
     let wrap_it = |i: Instruction| if place == "top" { i } else { wrap(place, i) };
     // body-incapable combinations
-    if place != "top" && (pos == "defframeName" || pos == "pragmaExternData") {
+    if place != "top" && (pos == "defframeName" || pos == "pragmaExternData" || pos == "pragmaExternBare") {
         return;
     }
     let probe = match wrap_it(build_more(pos, SENTINEL)).to_quil() {
@@ -334,6 +335,31 @@ fn run(ctx: &mut Ctx) {
         for pos in MORE_POSITIONS {
             for len in 0..=(pos_len - 1) {
                 all_strings(len, &mut |s| tmpl_case(ctx, place, pos, s));
+            }
+        }
+    }
+    // 3d. strings that MEAN something to some consumer of the program (extern signatures in canonical and
+    //     non-canonical spelling, keywords, numbers, attribute keys and values, Quil syntax), in every position
+    //     and place: a string is data wherever it sits, whoever else could parse it
+    const SPECIAL: [&str; 40] = [
+        "REAL", "REAL ", " REAL", " BIT ", "OCTET  ", "INTEGER", "(x : INTEGER)", "( x : INTEGER )", "(x:INTEGER)",
+        "INTEGER (x : REAL, y : mut BIT[2])", "INTEGER (x:REAL,y : mut BIT[2])", "INTEGER  (x : mut REAL[3])",
+        "real", "(x : integer)", "tx", "rx", "TX", "DIRECTION", "SAMPLE-RATE", "1.0", "1", "1e3", "0x10", "pi", "i",
+        "true", "DEFCAL", "PRAGMA", "EXTERN", "NONBLOCKING", "%a", "@a", "{q}", "ro[0]", "a b", "a  b", "\t", " ",
+        "QVSENTINEL", "# c",
+    ];
+    for sp in SPECIAL {
+        for pos in POSITIONS {
+            pos_case(ctx, pos, sp);
+        }
+        for place in PLACES {
+            for pos in BODY_POSITIONS {
+                placed_case(ctx, place, pos, sp);
+            }
+        }
+        for place in ["top", "defcal", "defcalMeasure", "defcircuit"] {
+            for pos in MORE_POSITIONS {
+                tmpl_case(ctx, place, pos, sp);
             }
         }
     }
